@@ -408,8 +408,15 @@ fn digits_j(neg: bool, mag: u128) -> J {
     json!({"k": "i", "neg": neg && mag != 0, "d": d})
 }
 
-fn sint_out<T: serde::Serialize + Copy>(out: &mut dyn Write, ty: &str, v: T, lit: J) {
-    let routes: [(&str, Box<dyn Fn() -> Result<String, String>>); 4] = [
+fn sint_out<T>(out: &mut dyn Write, ty: &str, v: T, lit: J)
+where
+    T: serde::Serialize + Copy + serde::de::IntoDeserializer<'static, serde::de::value::Error> + 'static,
+{
+    let routes: [(&str, Box<dyn Fn() -> Result<String, String>>); 5] = [
+        // a toml::Value built from a foreign serde source (the visitor's visit_u64 / visit_i64 / ...)
+        ("toml::Value::deserialize", Box::new(move || {
+            <toml::Value as serde::Deserialize>::deserialize(v.into_deserializer()).map(|x| x.to_string()).map_err(|e| e.to_string())
+        })),
         ("toml::to_string", Box::new(move || toml::to_string(&Wk { k: v }).map_err(|e| e.to_string()))),
         ("toml_edit::ser::to_string", Box::new(move || toml_edit::ser::to_string(&Wk { k: v }).map_err(|e| e.to_string()))),
         ("toml::Value::try_from", Box::new(move || toml::Value::try_from(Wk { k: v }).map(|x| x.to_string()).map_err(|e| e.to_string()))),
